@@ -2,10 +2,10 @@ package main
 
 import (
 	"encoding/json"
-	"os/exec"
 	"flag"
 	"fmt"
 	"os"
+	"os/exec"
 	"path/filepath"
 	"sort"
 	"strconv"
@@ -114,6 +114,7 @@ func cmdCheck(args []string) {
 	uncontracted := map[string]bool{}
 	localAssumes := map[string]string{}
 	unsupported := map[string][]string{}
+	var noTerm []string
 	for _, vc := range vcs {
 		sel := false
 		for _, o := range vc.obls {
@@ -149,7 +150,11 @@ func cmdCheck(args []string) {
 		if len(vc.unsup) > 0 {
 			unsupported[vc.name] = vc.unsup
 		}
+		if prop == "C04" {
+			noTerm = append(noTerm, vc.noTerm...)
+		}
 	}
+	sort.Strings(noTerm)
 	// lemma obligations (class G) tagged with the property
 	lemmaObls := lemmaObligations(W, prop)
 	obls = append(obls, lemmaObls...)
@@ -291,21 +296,22 @@ func cmdCheck(args []string) {
 		"seed":        seed,
 		"level":       "proof",
 		"coverage": map[string]interface{}{
-			"obligations":              len(obls),
-			"discharged":               discharged,
-			"checker_cmd":              "bin/apdvc check " + prop + " --tier " + *tier,
-			"trusted_base":             tb,
-			"samples":                  samples,
-			"functions_under_contract": fl,
-			"per_backend":              perBackend,
-			"solver_time_s":            solverTime,
-			"vacuity_guards":           vacuity,
-			"lemma_obligations":        len(lemmaObls),
-			"not_covered":              notCovered[prop],
-			"known_findings":           knownHit,
-			"generator_problems":       problems,
-			"bounded_standins":         bounded,
-			"exhaustive":               false,
+			"obligations":                          len(obls),
+			"discharged":                           discharged,
+			"checker_cmd":                          "bin/apdvc check " + prop + " --tier " + *tier,
+			"trusted_base":                         tb,
+			"samples":                              samples,
+			"functions_under_contract":             fl,
+			"per_backend":                          perBackend,
+			"solver_time_s":                        solverTime,
+			"vacuity_guards":                       vacuity,
+			"lemma_obligations":                    len(lemmaObls),
+			"not_covered":                          notCovered[prop],
+			"known_findings":                       knownHit,
+			"generator_problems":                   problems,
+			"loops_without_termination_obligation": noTerm,
+			"bounded_standins":                     bounded,
+			"exhaustive":                           false,
 		},
 		"assumptions": assumptions,
 		"wall_s":      time.Since(start).Seconds(),
